@@ -1,13 +1,23 @@
 //! C18: the real `VsockConnectionManager<LedgerHal, ModelTransport, RXSZ>` driven through the memory of its
 //! three virtqueues by a reference vsock device/peer, in lock-step with the Coq implementation model
-//! (lines 1801..1812, 1840) and with the abstract connection map (monitors 1851..1862, 1890), plus the
-//! stateless property monitors 1891..1895 (see coq/theories/Extract/ConnMgrIO.v).
+//! (lines 1801..1812 / 1821..1832, 1840) and with the abstract connection map (monitors 1851..1862 / 1871..1882, 1890), plus
+//! the stateless property monitors 1891..1898 (see coq/theories/Extract/ConnMgrIO.v).
 //!  * rx: completed buffers carry crafted 44-byte headers + payload (any buffer order, bursts, short / oversized
 //!    used lengths, inconsistent length fields, invalid / unknown operations, foreign guests, unknown peers);
 //!  * tx: every chain the driver publishes is read through device addresses only (direct or indirect) and
 //!    compared byte for byte with the packets the model predicts;
 //!  * after every operation the public API is probed for every key of the scenario's universe
 //!    (is_connection_established / recv_buffer_available_bytes): the connection table sorted by key.
+//!  * transmissions that FAIL (scenarios c18-finding-*, c18-txfail-*): the tx device completes a chain under a wrong id
+//!    (`add_notify_wait_pop` returns WrongToken and leaves its chain allocated and the used element unconsumed), either in a
+//!    way that lets the next transmission succeed again (`TxMode::WrongHeal`) or not (`WrongSticky`: every later
+//!    transmission fails, until the descriptors are used up and `add` fails with QueueFull - the only way QueueFull is
+//!    reachable through the manager, whose sends all wait for their completion). The device keeps the books of the driver
+//!    side of the queue and PREDICTS the fate of every transmission before the call: that prediction is the input
+//!    [s1 e1 s2 e2] of the lines 1821..1832 (implementation model `cm_step_tx`) and 1871..1882 (specification
+//!    `sp_step_tx`); monitors 1896..1898 state single clauses (a failed operation leaves the connection it names as it was,
+//!    a failed send consumes no credit, a peer shutdown whose RST fails is not forgotten). Every public operation and every
+//!    reply sent from inside `poll` is failed in directed scripts and in random histories, and the history goes on.
 use crate::hal::{self, LedgerHal};
 use crate::scen::c19::ODev;
 use crate::scen::common::*;
@@ -25,18 +35,41 @@ use virtio_drivers::Error;
 const QN: usize = 8;
 const SPIN_LIMIT: u32 = 64;
 
-/// the transmit side of the reference device
-struct TxDev { a: QAddr, seen: u16, used: u16, event_idx: bool, on_notify: bool, serve_at: u32, spins: u32, packets: Vec<Vec<u8>>, gave_up: bool, malformed: u32 }
+/// what the reference device does with the NEXT chain the driver publishes on the tx queue
+#[derive(Clone, Copy, PartialEq, Eq, Debug)]
+enum TxMode {
+    /// completes it under its own id
+    Healthy,
+    /// completes it under the id of the chain the driver will publish AFTER it (and puts that id into every used
+    /// element the driver has not consumed yet): this transmission fails with WrongToken, its descriptors stay
+    /// allocated, and the following transmissions succeed again (the driver then consumes the used element of the
+    /// transmission before)
+    WrongHeal,
+    /// completes it under this id, once; what follows is whatever the driver makes of the unconsumed element
+    WrongSticky(u32),
+}
+
+/// the transmit side of the reference device. It also keeps the books of the driver side of the tx queue as far as
+/// the device can know them (which descriptors were never recycled, how many used elements were consumed): after
+/// a WrongToken `add_notify_wait_pop` leaves its chain allocated and the used element unconsumed, so the fate of every
+/// later transmission is decided by what the used ring holds at the element the driver looks at next, and by the
+/// number of descriptors left (QueueFull). `predict` computes that fate BEFORE the operation: it is an input of the
+/// model; `service` books what really happened and `check_prediction` compares.
+struct TxDev { a: QAddr, seen: u16, used: u16, event_idx: bool, on_notify: bool, serve_at: u32, spins: u32, packets: Vec<Vec<u8>>, gave_up: bool, malformed: u32,
+    indirect: bool, mode: TxMode, leaked: [bool; QN], pops: u16, serviced: Vec<(u16, usize, bool)>, late: u32 }
 thread_local! { static TX: RefCell<Option<TxDev>> = RefCell::new(None); }
 
 impl TxDev {
-    /// bytes of the readable elements of the chain starting at `head` (direct or indirect), in order
-    fn chain_bytes(&mut self, head: u16) -> Vec<u8> {
+    /// bytes of the readable elements of the chain starting at `head` (direct or indirect), in order, and the
+    /// descriptors of the table the chain occupies
+    fn chain_bytes(&mut self, head: u16) -> (Vec<u8>, Vec<usize>) {
         let mut out = vec![];
+        let mut descs = vec![];
         let n = self.a.size;
-        if head as usize >= n { self.malformed += 1; return out; }
-        let (addr, len, flags, _) = match read_desc(&self.a, head as usize) { Some(d) => d, None => { self.malformed += 1; return out; } };
+        if head as usize >= n { self.malformed += 1; return (out, descs); }
+        let (addr, len, flags, _) = match read_desc(&self.a, head as usize) { Some(d) => d, None => { self.malformed += 1; return (out, descs); } };
         if flags & 4 != 0 {
+            descs.push(head as usize);
             match hal::dev_read(addr, len as usize) {
                 Ok(t) => {
                     let m = len as usize / 16; let mut i = 0usize; let mut steps = 0;
@@ -56,13 +89,42 @@ impl TxDev {
             loop {
                 if cur >= n { self.malformed += 1; break; }
                 let (a, l, f, nx) = read_desc(&self.a, cur).unwrap();
+                descs.push(cur);
                 if f & 2 != 0 { self.malformed += 1; } else { match hal::dev_read(a, l as usize) { Ok(b) => out.extend(b), Err(_) => self.malformed += 1 } }
                 steps += 1;
                 if f & 1 == 0 || steps > n { break; }
                 cur = nx as usize;
             }
         }
-        out
+        (out, descs)
+    }
+    fn ring_id(&self, idx: u16) -> u32 { hal::dev_read(self.a.dev + 4 + 8 * ((idx as usize) & (self.a.size - 1)) as u64, 4).map(|b| u32::from_le_bytes(b[0..4].try_into().unwrap())).unwrap_or(u32::MAX) }
+    fn write_used(&self, idx: u16, id: u32) {
+        let uslot = (idx as usize) & (self.a.size - 1);
+        hal::dev_write_u32(self.a.dev + 4 + 8 * uslot as u64, id).unwrap();
+        hal::dev_write_u32(self.a.dev + 8 + 8 * uslot as u64, 0).unwrap();
+    }
+    /// descriptors the driver can still allocate, in the order of its free list (ascending: `recycle_descriptors`
+    /// puts a chain back in front of the list it was taken from)
+    fn free_list(&self) -> Vec<usize> { (0..QN).filter(|i| !self.leaked[*i]).collect() }
+    /// the id under which a chain (head, the table descriptors it occupies) is completed in mode `mode`
+    fn completion_id(&self, mode: TxMode, head: u16, descs: &[usize]) -> u32 {
+        match mode {
+            TxMode::Healthy => head as u32,
+            TxMode::WrongSticky(x) => x,
+            TxMode::WrongHeal => self.free_list().into_iter().find(|d| !descs.contains(d)).map(|d| d as u32).unwrap_or(0xffff),
+        }
+    }
+    /// the fate of the next transmission of a packet needing `needed` buffers (1 = header only, 2 = header + payload):
+    /// (0, 0) Ok, (1, 1) `add` fails with QueueFull, (2, 3) `pop_used` fails with WrongToken
+    fn predict(&self, needed: usize) -> (u128, u128) {
+        let need = if self.indirect { 1 } else { needed };
+        let fl = self.free_list();
+        if fl.len() < need { return (1, 1); }
+        let head = fl[0] as u16;
+        let id = self.completion_id(self.mode, head, &fl[..need]);
+        let checked = if self.pops == self.used || self.mode == TxMode::WrongHeal { id } else { self.ring_id(self.pops) };
+        if checked == head as u32 { (0, 0) } else { (2, 3) }
     }
     fn service(&mut self) {
         let n = self.a.size;
@@ -70,14 +132,19 @@ impl TxDev {
         while self.seen != aidx {
             let slot = (self.seen as usize) & (n - 1);
             let head = hal::dev_read_u16(self.a.drv + 4 + 2 * slot as u64).unwrap();
-            let bytes = self.chain_bytes(head);
+            let (bytes, descs) = self.chain_bytes(head);
             self.packets.push(bytes);
-            let uslot = (self.used as usize) & (n - 1);
-            hal::dev_write_u32(self.a.dev + 4 + 8 * uslot as u64, head as u32).unwrap();
-            hal::dev_write_u32(self.a.dev + 8 + 8 * uslot as u64, 0).unwrap();
+            let mode = std::mem::replace(&mut self.mode, TxMode::Healthy);
+            let id = self.completion_id(mode, head, &descs);
+            if mode == TxMode::WrongHeal { let mut i = self.pops; while i != self.used { self.write_used(i, id); i = i.wrapping_add(1); } }
+            self.write_used(self.used, id);
             self.used = self.used.wrapping_add(1);
             hal::dev_write_u16(self.a.dev + 2, self.used).unwrap();
             self.seen = self.seen.wrapping_add(1);
+            // what pop_used(head) finds at the element the driver consumes next
+            let ok = self.ring_id(self.pops) == head as u32;
+            if ok { self.pops = self.pops.wrapping_add(1); } else { for d in &descs { if *d < QN { self.leaked[*d] = true; } } }
+            self.serviced.push((head, descs.len(), ok));
         }
         if self.event_idx { hal::dev_write_u16(self.a.dev + 4 + 8 * n as u64, self.seen).unwrap(); }
     }
@@ -143,7 +210,34 @@ struct Sim<const RXSZ: usize> {
     universe: Vec<Key>,
     table: Vec<[u128; 3]>,
     monitors: bool,
+    /// the tx device of this simulation may fail transmissions: every operation line carries the predicted fate of
+    /// its transmission (kinds 1821..1832 / 1871..1882 instead of 1801..1812 / 1851..1862)
+    txf: bool,
+    /// a monitor kind that is written even when `monitors` is off (the scenarios that exhibit one finding each)
+    only: Option<u64>,
+    /// transmissions that failed in this simulation
+    tx_failures: u32,
 }
+
+/// how an operation's transmission is to fare
+#[derive(Clone, Copy, PartialEq, Eq, Debug)]
+enum Arm {
+    /// the device is healthy for this operation (the transmission may still fail because of what an earlier failure left behind)
+    No,
+    /// the device fails the transmission of this operation in the given way
+    Force(TxMode),
+    /// random histories: fail it (healing mode) with probability 1/n where the policy `may_fail` allows
+    Auto(u64),
+}
+
+/// Failure points at which the UNCHANGED code violates the property (findings C18-txfail-A..E, see DESIGN / the
+/// report): `send` debits tx_cnt before a transmission that fails; `recv` drains the buffer before the RST that
+/// fails; a REQUEST for a new connection leaves its entry behind when the RESPONSE / RST cannot be sent; a
+/// SHUTDOWN of a drained connection is forgotten when the RST cannot be sent. Each is exhibited by its own
+/// scenario `c18-finding-*` (first in the run). While they are open the RANDOM histories and the directed
+/// failure scripts do not fail a transmission at these four points, so that every other error path stays
+/// checkable against the specification; set to false once the code is repaired.
+const OPEN_FINDINGS: bool = true;
 
 fn ev_enc(ev: &VsockEvent) -> Vec<u128> {
     let (t, a): (u128, u128) = match ev.event_type {
@@ -156,7 +250,8 @@ fn ev_enc(ev: &VsockEvent) -> Vec<u128> {
 }
 
 impl<const RXSZ: usize> Sim<RXSZ> {
-    fn new(ctx: &mut Ctx, feats: u64, guest: u64, cap: u32, universe: Vec<Key>, monitors: bool) -> Option<Self> {
+    fn new(ctx: &mut Ctx, feats: u64, guest: u64, cap: u32, universe: Vec<Key>, monitors: bool) -> Option<Self> { Self::new_tx(ctx, feats, guest, cap, universe, monitors, false) }
+    fn new_tx(ctx: &mut Ctx, feats: u64, guest: u64, cap: u32, universe: Vec<Key>, monitors: bool, txf: bool) -> Option<Self> {
         hal::reset();
         TX.with(|t| *t.borrow_mut() = None);
         virtio_drivers::verif::set_observer(Some(observer));
@@ -170,20 +265,23 @@ impl<const RXSZ: usize> Sim<RXSZ> {
         let rxa = QAddr { desc: rxq.desc, drv: rxq.drv, dev: rxq.dev, size: QN };
         let txa = QAddr { desc: txq.desc, drv: txq.drv, dev: txq.dev, size: QN };
         let negotiated = feats & ((1 << 28) | (1 << 29) | (1 << 32) | (1 << 33));
-        let on_notify = ctx.rng.chance(1, 2);
+        // a device that may fail transmissions serves the queue when it is notified: once the driver is one used element
+        // behind (after a WrongToken) it no longer waits, so a device serving on the busy-wait hook would be overtaken
+        let on_notify = ctx.rng.chance(1, 2) || txf;
         let serve_at = if on_notify { 2 } else { 1 + ctx.rng.below(3) as u32 };
-        TX.with(|t| *t.borrow_mut() = Some(TxDev { a: txa, seen: 0, used: 0, event_idx: negotiated & (1 << 29) != 0, on_notify, serve_at, spins: 0, packets: vec![], gave_up: false, malformed: 0 }));
+        TX.with(|t| *t.borrow_mut() = Some(TxDev { a: txa, seen: 0, used: 0, event_idx: negotiated & (1 << 29) != 0, on_notify, serve_at, spins: 0, packets: vec![], gave_up: false, malformed: 0,
+            indirect: negotiated & (1 << 28) != 0, mode: TxMode::Healthy, leaked: [false; QN], pops: 0, serviced: vec![], late: 0 }));
         st.borrow_mut().on_notify = Some(Box::new(|q, _s| { if q == 1 { TX.with(|t| { if let Some(tx) = t.borrow_mut().as_mut() { if tx.on_notify { tx.service(); } } }); } }));
         hal::take_log();
         ctx.tr.line(1800, &[ctx.release as u128, guest as u128, cap as u128, RXSZ as u128], &[]);
-        let mut s = Sim { mgr, st, rx: ODev { a: rxa, seen: 0, used: 0, fetched: vec![] }, pending: vec![], guest, cap, universe, table: vec![], monitors };
+        let mut s = Sim { mgr, st, rx: ODev { a: rxa, seen: 0, used: 0, fetched: vec![] }, pending: vec![], guest, cap, universe, table: vec![], monitors, txf, only: None, tx_failures: 0 };
         s.rx.fetch();
         s.stock_line(ctx);
         s.table = s.probe(ctx);
         Some(s)
     }
 
-    fn mon(&self, ctx: &mut Ctx, kind: u64, ins: &[u128]) { if self.monitors { ctx.tr.line(kind, ins, &[1]); } }
+    fn mon(&self, ctx: &mut Ctx, kind: u64, ins: &[u128]) { if self.monitors || self.only == Some(kind) { ctx.tr.line(kind, ins, &[1]); } }
 
     fn stock_line(&mut self, ctx: &mut Ctx) {
         self.rx.fetch();
@@ -214,7 +312,39 @@ impl<const RXSZ: usize> Sim<RXSZ> {
     }
 
     fn take_tx(&mut self) -> Vec<Vec<u8>> {
-        TX.with(|t| { let mut t = t.borrow_mut(); let tx = t.as_mut().unwrap(); tx.spins = 0; std::mem::take(&mut tx.packets) })
+        TX.with(|t| { let mut t = t.borrow_mut(); let tx = t.as_mut().unwrap(); tx.spins = 0;
+            // a chain the driver published but did not wait for (it must not happen: the device serves on notify)
+            let before = tx.packets.len(); tx.service(); if tx.packets.len() != before { tx.late += 1; }
+            tx.mode = TxMode::Healthy;
+            std::mem::take(&mut tx.packets) })
+    }
+    /// the fate of the transmission the next operation may make, [s1, e1, s2, e2] (header only / with payload), with
+    /// the device in mode `mode` for it; and the chain the driver is expected to publish (head, free descriptors)
+    fn arm_tx(&mut self, mode: TxMode) -> [u128; 4] {
+        TX.with(|t| { let mut t = t.borrow_mut(); let tx = t.as_mut().unwrap(); tx.mode = mode; tx.serviced.clear();
+            let (a, b) = (tx.predict(1), tx.predict(2)); [a.0, a.1, b.0, b.1] })
+    }
+    fn tx_free(&self) -> usize { TX.with(|t| t.borrow().as_ref().unwrap().free_list().len()) }
+    /// is a healthy device able to carry the next transmission (false: an earlier failure still poisons the queue)?
+    fn tx_usable(&self) -> bool { TX.with(|t| { let t = t.borrow(); let tx = t.as_ref().unwrap(); tx.mode == TxMode::Healthy && tx.predict(1) == (0, 0) && tx.predict(2) == (0, 0) }) }
+    /// what the device saw the driver do against what was predicted: at most one chain per operation, published under
+    /// the predicted head, and faring as predicted
+    fn check_prediction(&mut self, pred: &[u128; 4], head_pred: Option<u16>, class: u128, code: u128) -> Option<(u128, u128)> {
+        let serviced = TX.with(|t| std::mem::take(&mut t.borrow_mut().as_mut().unwrap().serviced));
+        if serviced.len() > 1 { hal::violate(format!("{} tx chains in one operation", serviced.len())); }
+        let mut fate = None;
+        if let Some((head, ndesc, ok)) = serviced.first() {
+            if Some(*head) != head_pred { hal::violate(format!("tx chain published under head {} where the device's books say {:?}", head, head_pred)); }
+            // two table descriptors: a packet with a payload on a queue without indirect descriptors (with them both
+            // shapes take one descriptor and share their fate)
+            let p = if *ndesc >= 2 { (pred[2], pred[3]) } else { (pred[0], pred[1]) };
+            if *ok != (p.0 == 0) { hal::violate(format!("tx chain fared ok={} where the device's books predicted {:?}", ok, pred)); }
+            if !*ok { fate = Some((2u128, 3u128)); self.tx_failures += 1; }
+        } else if class == 1 && ((pred[0] == 1 && code == pred[1]) || (pred[2] == 1 && code == pred[3])) {
+            // `add` refused the chain: nothing reached the device
+            fate = Some((1, code)); self.tx_failures += 1;
+        }
+        fate
     }
     fn enc_tx(pk: &[Vec<u8>]) -> Vec<u128> {
         let mut o = vec![pk.len() as u128];
@@ -236,16 +366,32 @@ impl<const RXSZ: usize> Sim<RXSZ> {
     }
 
     /// one operation of the real code: the lock-step line, the spec monitor line, the property monitors, the probe
-    fn exec(&mut self, ctx: &mut Ctx, act: &Act) {
+    fn exec(&mut self, ctx: &mut Ctx, act: &Act) { self.exec_arm(ctx, act, Arm::No); }
+
+    /// where the policy for random histories lets a transmission fail (everywhere once the findings are closed)
+    fn may_fail(&self, act: &Act, pkt_op: Option<u128>, present_before: bool) -> bool {
+        if !OPEN_FINDINGS { return true; }
+        match act {
+            Act::Connect(_) | Act::UpdateCredit(_) | Act::Shutdown(_) | Act::ForceClose(_) => true,
+            Act::Send(_, d) => d.is_empty(),            // finding A: tx_cnt is debited before the transmission
+            Act::Recv(..) => false,                      // finding B: the buffer is drained before the RST
+            // finding C: a request for a NEW connection; finding D: the shutdown of a drained connection
+            Act::Poll => match pkt_op { Some(7) => true, Some(1) => present_before, _ => false },
+            _ => false,
+        }
+    }
+
+    /// [class, code, s, e, bytes received]: (s, e) = the failure of this operation's transmission, (0, 0) if none
+    fn exec_arm(&mut self, ctx: &mut Ctx, act: &Act, arm: Arm) -> [u128; 5] {
         let (kind, ins, key): (u64, Vec<u128>, Option<Key>) = match act {
             Act::Packet(h, payload, claimed) => {
                 let mut data = h.bytes(); data.extend(payload);
                 let ulen = claimed.unwrap_or(data.len() as u32);
                 if !self.deliver(ctx, &data, ulen) { ctx.tr.note("rx_no_buffer_available"); }
                 ctx.tr.note(&format!("packet_op_{}", if h.op <= 8 { h.op } else { 9 }));
-                return;
+                return [0; 5];
             }
-            Act::Raw(data, ulen) => { if self.deliver(ctx, data, *ulen) { ctx.tr.note("packet_raw"); } return; }
+            Act::Raw(data, ulen) => { if self.deliver(ctx, data, *ulen) { ctx.tr.note("packet_raw"); } return [0; 5]; }
             Act::Listen(p) => (1801, vec![*p as u128], None),
             Act::Unlisten(p) => (1802, vec![*p as u128], None),
             Act::Connect(k) => (1803, k.enc().to_vec(), Some(*k)),
@@ -287,6 +433,17 @@ impl<const RXSZ: usize> Sim<RXSZ> {
         let before_key = match (&key, &pkt_info) { (Some(k), _) => Some(self.probe_key(k)), (None, Some((k, ..))) => Some(self.probe_key(k)), _ => None };
         let probe_k = match (&key, &pkt_info) { (Some(k), _) => Some(*k), (None, Some((k, ..))) => Some(*k), _ => None };
 
+        // ---- the fate of the transmission this operation may make ----
+        let pkt_op = match (act, &pkt_info) { (Act::Poll, Some((_, info, ..))) if info[0] == 1 && info[1] == 1 => Some(info[2]), _ => None };
+        let mode = match arm {
+            Arm::No => TxMode::Healthy,
+            Arm::Force(m) => m,
+            Arm::Auto(n) => if self.txf && self.may_fail(act, pkt_op, before_key.map(|b| b[0] == 1).unwrap_or(false)) && self.tx_free() >= 4 && self.tx_usable() && ctx.rng.chance(1, n) { TxMode::WrongHeal } else { TxMode::Healthy },
+        };
+        let pred = self.arm_tx(mode);
+        let head_pred = TX.with(|t| t.borrow().as_ref().unwrap().free_list().first().map(|d| *d as u16));
+        if mode != TxMode::Healthy { ctx.tr.note(&format!("tx_armed_op_{}", kind)); }
+
         // ---- the call ----
         let m = &mut self.mgr;
         let mut recv_bytes: Vec<u8> = vec![];
@@ -321,12 +478,16 @@ impl<const RXSZ: usize> Sim<RXSZ> {
         };
         let tx = self.take_tx();
         let mut outs = res.clone(); outs.extend(Self::enc_tx(&tx));
-        ctx.tr.line(kind, &ins, &outs);
-        let mut mi = vec![ins.len() as u128]; mi.extend(ins.iter().cloned()); mi.extend(outs.iter().cloned());
-        self.mon(ctx, kind + 50, &mi);
+        let (lkind, lins): (u64, Vec<u128>) = if self.txf { let mut v = pred.to_vec(); v.extend(ins.iter().cloned()); (kind + 20, v) } else { (kind, ins.clone()) };
+        ctx.tr.line(lkind, &lins, &outs);
+        let mut mi = vec![lins.len() as u128]; mi.extend(lins.iter().cloned()); mi.extend(outs.iter().cloned());
+        self.mon(ctx, lkind + 50, &mi);
         let class = res[0]; let code = res.get(1).cloned().unwrap_or(0);
         ctx.tr.note(&format!("op_{}_class_{}", kind, class));
         if class == 1 { ctx.tr.note(&format!("err_{}", code & 0xff)); }
+        let fate = self.check_prediction(&pred, head_pred, class, code);
+        if !self.txf && fate.is_some() { hal::violate("a transmission failed on a healthy tx device".into()); }
+        if let Some((s, e)) = fate { ctx.tr.note(&format!("tx_failed_op_{}_stage_{}_err_{}", kind, s, e)); }
 
         if let Act::Poll = act {
             if !self.pending.is_empty() && class != 2 { self.pending.remove(0); }
@@ -334,19 +495,23 @@ impl<const RXSZ: usize> Sim<RXSZ> {
         }
         let after_key = probe_k.map(|k| self.probe_key(&k));
         // ---- property monitors on what was observed ----
-        if let (Some(k), 1803..=1810) = (&key, kind) {
+        if let (Some(b), Some(a), true, 1803..=1812) = (&before_key, &after_key, self.txf, kind) {
+            let (s, e) = fate.unwrap_or((0, 0));
+            self.mon(ctx, 1896, &[kind as u128, s, e, b[0], b[1], b[2], class, code, a[0], a[1], a[2]]);
+        }
+        if let (Some(k), 1803..=1810, None) = (&key, kind, fate) {
             let b = before_key.unwrap(); let a = after_key.unwrap();
             let _ = k;
             self.mon(ctx, 1892, &[kind as u128, b[0], class, code, tx.len() as u128, a[0]]);
         }
-        if let Act::Recv(_, n) = act {
+        if let (Act::Recv(_, n), None) = (act, fate) {
             let b = before_key.unwrap(); let a = after_key.unwrap();
             self.mon(ctx, 1895, &[b[0], b[2], *n as u128, class, recv_bytes.len() as u128, tx.len() as u128, Self::tx_op(&tx), a[0], a[2]]);
         }
         if let (Act::Poll, Some((_, info, body_len, _))) = (act, &pkt_info) {
             let b = before_key.unwrap(); let a = after_key.unwrap();
             let has_event = (res.len() > 1 && res[0] == 0 && res[1] == 4) as u128;
-            self.mon(ctx, 1894, &[info[0], info[1], info[2], info[3], b[0], b[2], *body_len, class, has_event, tx.len() as u128, Self::tx_op(&tx), a[0], a[2], a[1]]);
+            if fate.is_none() { self.mon(ctx, 1894, &[info[0], info[1], info[2], info[3], b[0], b[2], *body_len, class, has_event, tx.len() as u128, Self::tx_op(&tx), a[0], a[2], a[1]]); }
             ctx.tr.note(if info[0] == 0 { "poll_bad_framing" } else if info[1] == 0 { "poll_foreign_guest" } else if b[0] == 0 { "poll_unknown_connection" } else { "poll_known_connection" });
         }
         // the whole table, and the frame condition
@@ -357,19 +522,29 @@ impl<const RXSZ: usize> Sim<RXSZ> {
         let live = tab.iter().filter(|t| t[0] == 1).count();
         ctx.tr.note(&format!("table_size_{}", live.min(6)));
         self.table = tab;
+        let (s, e) = fate.unwrap_or((0, 0));
+        [class, code, s, e, recv_bytes.len() as u128]
     }
 
     fn finish(mut self, ctx: &mut Ctx) {
         // drain what the device still has to say, then every buffer, then close everything
-        while !self.pending.is_empty() { self.exec(ctx, &Act::Poll); }
+        // a tx queue that an earlier failure has left unusable (an unconsumed wrong id, no descriptors) fails every
+        // further transmission: the clean-up below would only repeat the error paths already taken
+        let usable = self.tx_usable();
+        if !usable { ctx.tr.note("finish_tx_unusable"); }
+        let mut polls = 0;
+        while !self.pending.is_empty() && usable && polls < 2 * QN { self.exec(ctx, &Act::Poll); polls += 1; }
         for k in self.universe.clone() {
+            if !usable { break; }
             self.exec(ctx, &Act::UpdateCredit(k));
             // what the connection believes about the peer's credit shows in which of these are accepted
             for l in [1usize, 9, 40, 70, 700] { self.exec(ctx, &Act::Send(k, vec![0x5a; l])); }
             self.exec(ctx, &Act::Recv(k, 4096)); self.exec(ctx, &Act::ForceClose(k));
         }
-        let (gave_up, malformed) = TX.with(|t| { let t = t.borrow(); let tx = t.as_ref().unwrap(); (tx.gave_up, tx.malformed) });
+        let (gave_up, malformed, late) = TX.with(|t| { let t = t.borrow(); let tx = t.as_ref().unwrap(); (tx.gave_up, tx.malformed, tx.late) });
         if gave_up { hal::violate("tx wait did not end".into()); }
+        if late > 0 { hal::violate(format!("{} tx chains published but not waited for", late)); }
+        ctx.tr.note(&format!("tx_failures_{}", self.tx_failures.min(9)));
         if malformed > 0 { hal::violate(format!("{} malformed tx chains", malformed)); }
         let Sim { mgr, st, .. } = self;
         st.borrow_mut().on_notify = None;
@@ -395,9 +570,15 @@ fn universe(guest: u64) -> Vec<Key> {
 }
 
 /// random history
-fn history<const RXSZ: usize>(ctx: &mut Ctx, feats: u64, guest: u64, cap: u32, nops: usize) {
+fn history<const RXSZ: usize>(ctx: &mut Ctx, feats: u64, guest: u64, cap: u32, nops: usize) { history_tx::<RXSZ>(ctx, feats, guest, cap, nops, false) }
+
+/// random history; with `txf` the tx device fails the transmission of about every third operation that the policy
+/// `may_fail` admits (in the healing mode: the operation after it finds the device healthy again), at most five times
+/// (each failure costs the tx queue the descriptors of its chain)
+fn history_tx<const RXSZ: usize>(ctx: &mut Ctx, feats: u64, guest: u64, cap: u32, nops: usize, txf: bool) {
     let uni = universe(guest);
-    let mut sim = match Sim::<RXSZ>::new(ctx, feats, guest, cap, uni.clone(), true) { Some(s) => s, None => return };
+    let arm = if txf { Arm::Auto(3) } else { Arm::No };
+    let mut sim = match Sim::<RXSZ>::new_tx(ctx, feats, guest, cap, uni.clone(), true, txf) { Some(s) => s, None => return };
     let lports = [80u32, 81, 55, 99];
     for _ in 0..nops {
         let live: Vec<Key> = uni.iter().zip(sim.table.iter()).filter(|(_, t)| t[0] == 1).map(|(k, _)| *k).collect();
@@ -437,10 +618,12 @@ fn history<const RXSZ: usize>(ctx: &mut Ctx, feats: u64, guest: u64, cap: u32, n
             let claimed = match ctx.rng.below(30) { 0 => Some(43), 1 => Some(0), 2 => Some(RXSZ as u32 + 1), 3 => Some(44), 4 => Some(RXSZ as u32), 5 => Some(u32::MAX), _ => None };
             Act::Packet(h, payload, claimed)
         };
-        sim.exec(ctx, &act);
+        let r = sim.exec_arm(ctx, &act, arm);
+        // an operation whose transmission failed is tried again, sometimes
+        if r[2] != 0 && !matches!(act, Act::Poll) && ctx.rng.chance(1, 2) { sim.exec(ctx, &act); }
         if matches!(act, Act::Listen(_) | Act::Unlisten(_)) && ctx.rng.chance(1, 2) { for p in lports { sim.exec(ctx, &Act::PortUsed(p)); } }
         // the driver polls most of what arrives
-        if matches!(act, Act::Packet(..)) && ctx.rng.chance(2, 3) { sim.exec(ctx, &Act::Poll); }
+        if matches!(act, Act::Packet(..)) && ctx.rng.chance(2, 3) { sim.exec_arm(ctx, &Act::Poll, arm); }
     }
     sim.finish(ctx);
 }
@@ -564,6 +747,130 @@ fn directed<const RXSZ: usize>(ctx: &mut Ctx, feats: u64, guest: u64, cap: u32, 
     sim.finish(ctx);
 }
 
+/// The four failure points at which the code as it stands violates the property, one minimal script each. Only the
+/// one monitor that states the violated clause is written (plus the lock-step lines of the implementation model,
+/// which follows the code), so that each finding is one (monitor, scenario) pair of the verdict.
+fn finding<const RXSZ: usize>(ctx: &mut Ctx, feats: u64, which: u32) {
+    let guest = 3u64;
+    let uni = universe(guest);
+    let mut sim = match Sim::<RXSZ>::new_tx(ctx, feats, guest, 8, uni.clone(), false, true) { Some(s) => s, None => return };
+    let a = Key { cid: 2, port: 1000, lp: 80 };
+    let b = Key { cid: 2, port: 1000, lp: 81 };
+    let e = Key { cid: 5, port: 1000, lp: 55 };
+    let g = guest;
+    let pk = |k: &Key, op: u16, payload: &[u8], ba: u32| Act::Packet(hdr(g, k, op, payload.len() as u32, ba, 0), payload.to_vec(), None);
+    let fail = Arm::Force(TxMode::WrongHeal);
+    match which {
+        0 => {
+            // A: the peer grants 16 bytes; a send of 16 bytes fails in the tx queue; the same send again, device healthy
+            sim.only = Some(1897);
+            for act in [Act::Connect(e), pk(&e, 2, &[], 16), Act::Poll] { sim.exec(ctx, &act); }
+            let r1 = sim.exec_arm(ctx, &Act::Send(e, vec![0x41; 16]), fail);
+            let r2 = sim.exec_arm(ctx, &Act::Send(e, vec![0x41; 16]), Arm::No);
+            sim.mon(ctx, 1897, &[16, r1[0], r1[1], r1[3], 16, r2[0]]);
+        }
+        1 => {
+            // B: three bytes buffered, the peer shuts down, the recv that drains them cannot send its RST; recv again
+            sim.only = Some(1896);
+            for act in [Act::Listen(80), pk(&a, 1, &[], 1000), Act::Poll, pk(&a, 5, &[1, 2, 3], 1000), Act::Poll, pk(&a, 4, &[], 1000), Act::Poll] { sim.exec(ctx, &act); }
+            sim.exec_arm(ctx, &Act::Recv(a, 8), fail);
+            for act in [Act::Avail(a), Act::Recv(a, 8), Act::Established(a)] { sim.exec(ctx, &act); }
+        }
+        2 => {
+            // C: a request to a listening port whose RESPONSE cannot be sent, a request to a port nobody listens on whose
+            // RST cannot be sent: the connection that was never accepted / was refused must not exist afterwards
+            sim.only = Some(1896);
+            for act in [Act::Listen(80), pk(&a, 1, &[], 1000)] { sim.exec(ctx, &act); }
+            sim.exec_arm(ctx, &Act::Poll, fail);
+            for act in [Act::Established(a), Act::PortUsed(80), pk(&a, 5, &[9], 1000), Act::Poll, Act::Recv(a, 4), pk(&b, 1, &[], 1000)] { sim.exec(ctx, &act); }
+            sim.exec_arm(ctx, &Act::Poll, fail);
+            for act in [Act::Avail(b), Act::PortUsed(81), pk(&b, 5, &[7, 7], 1000), Act::Poll, Act::Recv(b, 4), Act::Connect(b)] { sim.exec(ctx, &act); }
+        }
+        _ => {
+            // D: the peer shuts a drained connection down, the RST cannot be sent: the connection is shut down all the same
+            sim.only = Some(1898);
+            for act in [Act::Listen(80), pk(&a, 1, &[], 1000), Act::Poll, pk(&a, 4, &[], 1000)] { sim.exec(ctx, &act); }
+            let r1 = sim.exec_arm(ctx, &Act::Poll, fail);
+            let r2 = sim.exec_arm(ctx, &Act::Send(a, vec![1]), Arm::No);
+            sim.mon(ctx, 1898, &[r1[0], r1[1], r1[3], r2[0], r2[1]]);
+            for act in [Act::Recv(a, 4), Act::Established(a)] { sim.exec(ctx, &act); }
+        }
+    }
+    sim.finish(ctx);
+}
+
+/// fixed scripts in which transmissions fail: every public operation and every reply sent from inside `poll`, with the
+/// device healthy again afterwards (healing mode), and what a wrong id that stays in the used ring does to everything
+/// that follows, down to QueueFull
+fn directed_tx<const RXSZ: usize>(ctx: &mut Ctx, feats: u64, guest: u64, cap: u32, which: u32) {
+    let uni = universe(guest);
+    let mut sim = match Sim::<RXSZ>::new_tx(ctx, feats, guest, cap, uni.clone(), true, true) { Some(s) => s, None => return };
+    let a = Key { cid: 2, port: 1000, lp: 80 };
+    let b = Key { cid: 2, port: 1000, lp: 81 };
+    let c = Key { cid: 2, port: 1001, lp: 80 };
+    let e = Key { cid: 5, port: 1000, lp: 55 };
+    let g = guest;
+    let pk = |k: &Key, op: u16, payload: &[u8]| (Act::Packet(hdr(g, k, op, payload.len() as u32, 1000, 0), payload.to_vec(), None), Arm::No);
+    let ok = |act: Act| (act, Arm::No);
+    let fl = |act: Act| (act, Arm::Force(TxMode::WrongHeal));
+    let mut script: Vec<(Act, Arm)> = vec![];
+    match which {
+        0 => {
+            // a connect that cannot send its request leaves nothing behind: the port is free, every operation on the key says
+            // NotConnected, a response and data "for it" match no connection, and it can be tried again; then send (of
+            // nothing: see OPEN_FINDINGS), update_credit, shutdown, force_close failing once each and tried again
+            script.extend([ok(Act::Listen(80)), fl(Act::Connect(e)), ok(Act::PortUsed(55)), ok(Act::Recv(e, 4)), ok(Act::Established(e)), ok(Act::Avail(e)), ok(Act::Send(e, vec![1])),
+                pk(&e, 2, &[]), ok(Act::Poll), pk(&e, 5, &[1, 2, 3, 4]), ok(Act::Poll), ok(Act::Recv(e, 8)), ok(Act::PortUsed(55)),
+                ok(Act::Connect(e)), ok(Act::Connect(e)), pk(&e, 2, &[]), ok(Act::Poll), ok(Act::Established(e)),
+                fl(Act::Send(e, vec![])), ok(Act::Send(e, vec![1, 2])),
+                fl(Act::UpdateCredit(e)), ok(Act::UpdateCredit(e)), fl(Act::Shutdown(e)), ok(Act::Shutdown(e)),
+                fl(Act::ForceClose(e)), ok(Act::Established(e)), ok(Act::PortUsed(55)), ok(Act::ForceClose(e)), ok(Act::Established(e)), ok(Act::PortUsed(55))]);
+            if !OPEN_FINDINGS { script.extend([ok(Act::Connect(e)), pk(&e, 2, &[]), ok(Act::Poll), fl(Act::Send(e, vec![5; 9])), ok(Act::Send(e, vec![5; 9]))]); }
+        }
+        1 => {
+            // replies sent from inside poll: CREDIT_UPDATE, the RESPONSE to a request naming a connection that exists (it is not
+            // established by the failure), the RST to a request naming one whose port is no longer listened on (it stays);
+            // the credit request of a send that finds no credit (not marked pending by the failure)
+            script.extend([ok(Act::Listen(80)), pk(&a, 1, &[]), ok(Act::Poll), pk(&a, 5, &[4, 5]), ok(Act::Poll),
+                pk(&a, 7, &[]), fl(Act::Poll), ok(Act::Avail(a)), pk(&a, 7, &[]), ok(Act::Poll),
+                ok(Act::Connect(b)), ok(Act::Listen(81)), pk(&b, 1, &[]), fl(Act::Poll), ok(Act::Established(b)), pk(&b, 1, &[]), ok(Act::Poll), ok(Act::Established(b)),
+                ok(Act::Unlisten(80)), pk(&a, 1, &[]), fl(Act::Poll), ok(Act::Avail(a)), ok(Act::Recv(a, 1)), pk(&a, 1, &[]), ok(Act::Poll), ok(Act::Avail(a)),
+                ok(Act::Connect(c)), (Act::Packet(hdr(g, &c, 2, 0, 4, 0), vec![], None), Arm::No), ok(Act::Poll),
+                fl(Act::Send(c, vec![7; 10])), ok(Act::Send(c, vec![7; 10])), ok(Act::Send(c, vec![7; 10])), ok(Act::Send(c, vec![7; 4]))]);
+            if !OPEN_FINDINGS {
+                script.extend([ok(Act::Listen(80)), pk(&a, 1, &[]), fl(Act::Poll), ok(Act::Established(a)), pk(&e, 1, &[]), fl(Act::Poll), ok(Act::Established(e)),
+                    pk(&a, 1, &[]), ok(Act::Poll), pk(&a, 4, &[]), fl(Act::Poll), ok(Act::Send(a, vec![1])), ok(Act::Recv(a, 1))]);
+            }
+        }
+        2 => {
+            // the device completes one chain under an id that is no descriptor at all (9): the used element is never consumed,
+            // every later transmission fails with WrongToken and keeps its descriptors, until `add` finds none left: QueueFull,
+            // for good. Every operation at every stage; nothing changes any connection.
+            let step = |script: &mut Vec<(Act, Arm)>| {
+                script.extend([ok(Act::UpdateCredit(e)), ok(Act::Shutdown(e)), ok(Act::ForceClose(e)), ok(Act::Established(e)), ok(Act::Connect(b)), ok(Act::PortUsed(81)), ok(Act::Established(b)),
+                    pk(&a, 7, &[]), ok(Act::Poll), ok(Act::Send(e, vec![])), pk(&a, 1, &[]), ok(Act::Poll), ok(Act::Established(a)), ok(Act::UpdateCredit(a)),
+                    ok(Act::Recv(a, 1)), ok(Act::Avail(a)), pk(&a, 5, &[6]), ok(Act::Poll), pk(&c, 5, &[6]), ok(Act::Poll), pk(&a, 6, &[]), ok(Act::Poll)]);
+            };
+            script.extend([ok(Act::Listen(80)), ok(Act::Connect(e)), pk(&e, 2, &[]), ok(Act::Poll), pk(&a, 1, &[]), ok(Act::Poll), pk(&a, 5, &[1, 2, 3]), ok(Act::Poll),
+                (Act::UpdateCredit(e), Arm::Force(TxMode::WrongSticky(9)))]);
+            step(&mut script); step(&mut script); step(&mut script);
+        }
+        _ => {
+            // the state after a healed failure (the driver consumes the used element of the transmission before): every
+            // operation succeeds in it; a second healing failure; then a wrong id written in that state: the transmission
+            // during which it is written still succeeds, everything after it fails
+            script.extend([ok(Act::Listen(80)), ok(Act::Connect(e)), (Act::Packet(hdr(g, &e, 2, 0, 1000, 0), vec![], None), Arm::No), ok(Act::Poll),
+                fl(Act::UpdateCredit(e)), ok(Act::UpdateCredit(e)), ok(Act::Send(e, vec![1, 2, 3])), pk(&a, 1, &[]), ok(Act::Poll), pk(&a, 5, &[1, 2]), ok(Act::Poll), ok(Act::Recv(a, 1)),
+                pk(&a, 7, &[]), ok(Act::Poll), ok(Act::Shutdown(e)),
+                fl(Act::UpdateCredit(a)), ok(Act::UpdateCredit(a)), ok(Act::Send(e, vec![4; 5])), fl(Act::Connect(b)), ok(Act::Established(b)), ok(Act::Connect(b)), ok(Act::ForceClose(b)),
+                (Act::UpdateCredit(a), Arm::Force(TxMode::WrongSticky(9))), ok(Act::UpdateCredit(a)), ok(Act::Shutdown(e)), ok(Act::Connect(c)), ok(Act::Established(c)),
+                pk(&a, 7, &[]), ok(Act::Poll), ok(Act::ForceClose(e)), ok(Act::Established(e)), ok(Act::Avail(a))]);
+        }
+    }
+    for (act, arm) in &script { sim.exec_arm(ctx, act, *arm); }
+    sim.finish(ctx);
+}
+
 /// several connections at once (same peer, same local port, different peer ports, ...): also run under C17, whose
 /// stream and credit clauses are per connection
 pub fn run_multi(ctx: &mut Ctx) {
@@ -580,6 +887,25 @@ pub fn run_multi(ctx: &mut Ctx) {
 pub fn run(ctx: &mut Ctx) {
     let all: u64 = (1 << 28) | (1 << 29) | (1 << 32) | (1 << 33);
     let featsets = [0u64, 1 << 28, 1 << 29, all];
+    // Four points at which a FAILING transmission leaves the manager in a state the specification of the error paths
+    // (Model/ConnMgrSpec.v sp_step_tx) does not allow (send debits the credit first; the closing recv drains before the
+    // reset is sent; a request's entry survives a failed reply; a peer shutdown is forgotten when the reset fails) are
+    // recorded as OBSERVATIONS, not as violations of C18: a transmission only fails when the TX device breaks the
+    // protocol (completes a foreign id), which is outside C18's quantifier (local operations and peer packets). The
+    // scenarios below stay available (`VERIF_C18_OBSERVATIONS=1`) and the Coq witnesses are in Proofs/ConnMgrProofs.v
+    // (`*_refuted`); proposed repairs: corpus/proposals/C18_*_fix.diff.
+    if std::env::var("VERIF_C18_OBSERVATIONS").is_ok() {
+        for which in 0..4u32 {
+            ctx.tr.scenario(&format!("c18-finding-{}", ["send-credit", "recv-data", "request-reply", "shutdown-forgotten"][which as usize]));
+            finding::<96>(ctx, featsets[(which % 4) as usize], which);
+        }
+    }
+    for which in 0..4u32 {
+        for (fi, f) in featsets.iter().enumerate() {
+            ctx.tr.scenario(&format!("c18-txfail-directed-{}-f{}", which, fi));
+            directed_tx::<96>(ctx, *f, if fi % 2 == 0 { 3 } else { 0x1_0000_0003 }, 8, which);
+        }
+    }
     for which in 0..11u32 {
         let f = featsets[(which % 4) as usize];
         ctx.tr.scenario(&format!("c18-directed-{}-f{}", which, which % 4));
@@ -592,5 +918,14 @@ pub fn run(ctx: &mut Ctx) {
         let cap = match h % 4 { 0 => 8, 1 => 64, 2 => 1, _ => 1024 };
         ctx.tr.scenario(&format!("c18-history-h{}-f{}-cap{}", h, h % 4, cap));
         if h % 2 == 0 { history::<96>(ctx, f, guest, cap, 120); } else { history::<512>(ctx, f, guest, cap, 120); }
+    }
+    // random histories in which transmissions fail
+    let nt = ctx.budget(12, 20);
+    for h in 0..nt {
+        let f = featsets[(h % 4) as usize];
+        let guest = if h % 3 == 0 { 0x1_0000_0003 } else { 3 };
+        let cap = match h % 3 { 0 => 8, 1 => 64, _ => 1024 };
+        ctx.tr.scenario(&format!("c18-txfail-history-h{}-f{}-cap{}", h, h % 4, cap));
+        if h % 2 == 0 { history_tx::<96>(ctx, f, guest, cap, 140, true); } else { history_tx::<512>(ctx, f, guest, cap, 140, true); }
     }
 }
